@@ -26,7 +26,9 @@ RULE = ('cases: generated pragmatic problems (3-10 jobs: deliveries, pickups, se
         'groups, matrix errorCodes (asymmetric / symmetric / a location that cannot be left or entered), 2-3 capacity dimensions, skills '
         'oneOf / noneOf, vehicle reloads (small capacities + extra deliveries and shipments: several trips, shipments carried across a '
         'reload), task order (1-3 on about half of the tasks: a hard rule with the default objectives), job value (switches the '
-        'maximize-value objective on), optional vehicle breaks (time window or offset interval, places with / without location, 1-2 per shift); '
+        'maximize-value objective on), optional vehicle breaks (time window or offset interval, places with / without location, 1-2 per shift), '
+        'general routing data for a quarter of the problems (1-2 profiles, integer scale, 2-3 timestamped matrices per profile); a fifth of '
+        'the cases carry relations (any / sequence / strict, departure / arrival anchors, shiftIndex) derived from a solution of the same problem; '
         'metric and non-metric integer matrices incl. the "cheap chain, expensive shortcut" shape) x 3 configurations each '
         '(max_generations 0-20, Parallelism none/(1,1)/(2,2), outer threads 1-2, quota firing after 0-89 polls or never). '
         'non-trivial = distinct (problem, document) whose document has a tour with >= 2 jobs or a binding constraint (an unassigned job).')
@@ -43,10 +45,10 @@ ASSUMPTIONS = ['problem fragment without required breaks, recharges, clustering,
 
 
 def generate(rng, tier, n):
-    # about a sixth of the cases carry `plan.relations` derived from a solution of the same problem (two-phase generation:
+    # a fifth of the cases carry `plan.relations` derived from a solution of the same problem (two-phase generation:
     # solve, derive relations from the returned tours, re-solve with them); their own forked stream: the other cases are the
     # ones the generator produced before relations existed
-    nrel = n // 6
+    nrel = n // 5
     cases = e2e.gen_cases(rng, n - nrel, per_problem=3, allow=('tdm',))
     return cases + e2e.gen_relation_cases(rng.fork('relations'), nrel)
 
@@ -78,6 +80,36 @@ def reload_bridges(c, doc, k, i):
         u, w = locs[i - 1], locs[i]
         return any(err[u * n + r['location']['index']] <= 0 and err[r['location']['index'] * n + w] <= 0
                    for r in sh.get('reloads') or [])
+    except Exception:  # noqa
+        return False
+
+
+def break_bridges(c, doc, k, i):
+    """the leg arriving at flattened activity i of tour k of `doc` joins two activities between which an OPTIONAL BREAK of the
+    tour's vehicle shift can have been (both of ITS legs reachable): OptionalBreakState::remove_invalid_breaks (breaks.rs) takes an
+    orphaned / mistimed break out of the tour (tour.remove, no constraint evaluated) at every accept_solution_state, also at the
+    end of a pure construction.  A place without location sits wherever its previous activity was WHEN THE BREAK WAS INSERTED
+    (a job may be inserted in front of it later: the orphan case), so any location L with both legs reachable qualifies
+    (observed: P(L) -> pickup at 4 -> break(L) -> delivery at 3 became 4 -> 3 with errorCodes[4][3] > 0)"""
+    try:
+        t = doc['tours'][k]
+        m = c['matrices'][0]
+        err, n = m.get('errorCodes') or [], e2e.matrix_size(m)
+        locs = [(a.get('location') or st['location'])['index'] for st in t['stops'] for a in st['activities']]
+        vt = e2e.vehicle_type_of(c, t)
+        sh = vt['shifts'][t.get('shiftIndex', 0)]
+        u, w = locs[i - 1], locs[i]
+
+        def fits(b):
+            return err[u * n + b] <= 0 and err[b * n + w] <= 0
+        for br in e2e.optional_breaks(sh):
+            for pl in br['places']:
+                if pl.get('location') is not None:
+                    if fits(pl['location']['index']):
+                        return True
+                elif any(fits(b) for b in range(n)):
+                    return True
+        return False
     except Exception:  # noqa
         return False
 
@@ -140,13 +172,17 @@ def oracle_model(c, impl, model):
                 if t[0] == 'FUnreachable' and reload_bridges(c, doc, t[1], t[2]):
                     # not removal-free after all: a reload marker that became trivial was removed between the two ends
                     cls = 'unreachable-leg-where-a-removed-reload-marker-fits'
+                elif t[0] == 'FUnreachable' and break_bridges(c, doc, t[1], t[2]):
+                    # likewise: a break that remove_invalid_breaks took out of the tour was between the two ends
+                    cls = 'unreachable-leg-where-a-removed-break-fits'
                 else:
                     cons_bad = cons_bad or t[0] == 'FUnreachable'
                 out.append({'class': cls,
                             'what': 'pure construction (%s, insertions only) violates %s %s' % (method, t[0], list(t[1:]))})
     else:
         # no Coq verdict on the construction documents at hand (caller evaluated valid_b on the returned one only): python twin
-        cons = [[('FUnreachable',) + x for x in e2e.unreachable_legs(c, d) if not reload_bridges(c, d, x[0], x[1])] for _, d in docs]
+        cons = [[('FUnreachable',) + x for x in e2e.unreachable_legs(c, d)
+                 if not reload_bridges(c, d, x[0], x[1]) and not break_bridges(c, d, x[0], x[1])] for _, d in docs]
         cons_bad = any(cons)
     for t in e2e.coq_viols(main, 'P'):
         if t[0] == 'PRouting':
@@ -170,6 +206,11 @@ def oracle_model(c, impl, model):
         elif name == 'FShiftStart' and tour is not None and \
                 ((e2e.vehicle_type_of(c, tour) or {}).get('limits') or {}).get('maxDuration') is not None:
             cls = 'departure-outside-shift-start-max-duration-vehicle'
+        elif name == 'FInfeasible' and tour is not None and departure_advanced_under_td(c, tour):
+            # finding C01-F5: try_advance_departure_time (departure_time.rs) shifts the departure by the waiting time / slack it
+            # reads off the CURRENT schedule, i.e. it assumes every arrival moves 1:1 with the departure; with travel times that
+            # depend on the departure time the arrivals move by more and a time window is missed
+            cls = 'tour-infeasible-departure-advanced-with-time-dependent-durations'
         elif name == 'FMaxDistance' and nonmetric_d:
             cls = 'max-distance-exceeded-nonmetric-matrix'
         elif name in ('FMaxDuration', 'FInfeasible') and nonmetric_t:
@@ -181,6 +222,24 @@ def oracle_model(c, impl, model):
             cls = 'unreachable-leg-absent-from-pure-construction'
         out.append({'class': cls, 'what': '%s %s (tour index, detail)' % (name, list(t[1:]))})
     return out
+
+
+def departure_advanced_under_td(c, tour):
+    """structure of finding C01-F5: the matrices of the tour's profile carry timestamps and their travel times differ, and the
+    tour departs LATER than the shift's earliest start (the departure-time optimisation moved it)"""
+    try:
+        vt = e2e.vehicle_type_of(c, tour)
+        prof = vt['profile']['matrix']
+        ms = [m for m in c['matrices'] if m.get('profile') == prof and m.get('timestamp') is not None]
+        if len(ms) < 2 or all(m['travelTimes'] == ms[0]['travelTimes'] for m in ms):
+            return False
+        sh = vt['shifts'][tour.get('shiftIndex', 0)]
+        first = tour['stops'][0]
+        acts = first['activities']
+        dep = e2e.secs(acts[0]['time']['end']) if acts and acts[0].get('time') else e2e.secs(first['time']['departure'])
+        return dep > e2e.secs(sh['start']['earliest'])
+    except Exception:  # noqa
+        return False
 
 
 def violates_triangle(vals):
